@@ -3,7 +3,7 @@
     f32, scaled by a power of two where stated); an implementation distance arrives as its
     binary32 BIT PATTERN and is compared with the model's exact integer through Vec/F32.v. *)
 From Coq Require Import ZArith List Bool.
-From GV Require Export Vec.Hnsw Vec.Brute Vec.Kernel Vec.F32 Vec.Quant Vec.Inst Vec.Wrap Vec.SmallSort.
+From GV Require Export Vec.Hnsw Vec.Brute Vec.Kernel Vec.F32 Vec.Quant Vec.Inst Vec.Wrap Vec.SmallSort Vec.Quant2.
 Import ListNotations.
 Open Scope Z_scope.
 
@@ -233,3 +233,24 @@ Definition chk_join (cap calls : nat) (rows : list (Z * list (Z * Z))) (impl : l
   | (chs, f) => list_eqb (list_eqb jrow_eqb) chs impl && Bool.eqb f fin && Bool.eqb (k_join_boundary cap rows) bad
   end.
 Definition k_join (cap : nat) (rows : list (Z * list (Z * Z))) : bool := k_join_boundary cap rows.
+
+(** ---- scalar quantiser distances on the exact grid ---- *)
+(** asymmetric_distance_squared(query, codes) and distance_squared_u8(a, b) as f32 bits *)
+Definition chk_squant_dist (mins es q codes a b : zvec) (asym_bits u8_bits : Z) : bool :=
+  f32_is_int asym_bits (sq_asym2_grid mins es q codes) && f32_is_int u8_bits (sq_dist2_u8_grid es a b).
+
+(** ---- binary quantiser: quantize(v) words, hamming_distance, hamming_distance_simd ---- *)
+Definition chk_bquant (a b : zvec) (wa wb : list Z) (ham ham_simd : Z) : bool :=
+  list_eqb Z.eqb (bq_quantize a) wa && list_eqb Z.eqb (bq_quantize b) wb
+  && (hamming_words wa wb =? ham) && (ham_simd =? ham)
+  && (hamming_bits (sign_bits a) (sign_bits b) =? ham).
+
+(** ---- product quantiser with explicit integer centroids ---- *)
+(** quantize(v) codes, build_distance_table(q) (f32 bits, row-major M x K), asymmetric_distance_squared(q, codes),
+    reconstruct(codes) *)
+Definition chk_pquant (cb : codebook) (sd : nat) (v q : zvec) (codes : list Z) (table_bits : list Z) (adc_bits : Z)
+           (recon_bits : list Z) : bool :=
+  list_eqb Z.eqb (pq_quantize cb sd v) codes
+  && list_eqb (fun m b => f32_is_int b m) (concat (pq_table cb sd q)) table_bits
+  && f32_is_int adc_bits (pq_dist_table (pq_table cb sd q) codes)
+  && list_eqb (fun m b => f32_is_int b m) (pq_reconstruct cb codes) recon_bits.
